@@ -4,6 +4,7 @@
 package formatter_test
 
 import (
+	"strings"
 	"testing"
 
 	"github.com/titpetric/vuego/formatter"
@@ -71,5 +72,22 @@ func TestFinding46and58_NbspAndBlankAttribute(t *testing.T) {
 	o1, o2 = formatTwice(t, `<div class=" ">x</div>`)
 	if o2 != o1 {
 		t.Fatalf("blank attribute: got %q then %q", o1, o2)
+	}
+}
+
+// row 69 — C19.R14 / C02.R11: raw-text elements and <noscript>
+func TestFinding69_RawTextAndNoscriptAreStable(t *testing.T) {
+	for _, src := range []string{
+		"<div><noscript><img src=\"a.png\"></noscript></div>\n",
+		"<div><iframe src=\"x\">fallback <b>text</b></iframe></div>\n",
+		"<div><xmp><b>raw</b></xmp><noembed><p>x</p></noembed></div>\n",
+	} {
+		o1, o2 := formatTwice(t, src)
+		if o1 != o2 {
+			t.Errorf("%q: not idempotent\n 1: %q\n 2: %q", src, o1, o2)
+		}
+		if strings.Contains(o1, "&lt;") {
+			t.Errorf("%q: markup inside was escaped: %q", src, o1)
+		}
 	}
 }
